@@ -510,30 +510,60 @@ func DefaultsApplied(c *Check, id string, rels ...string) {
 				ok := applies(fn, func(v ssa.Value) bool { return refersToParam(v, p) }, T, 0)
 				c.Report(ok, id, "DEFAULTS-APPLIED", fn, fn.Pos(), "configuration parameter "+prm.Name()+" of "+fn.Name(), "the constructor fills in the configuration's defaults (on the value it goes on to use) before it can return successfully")
 			}
-			// a configuration built inside an exported constructor
-			rawInstrs(fn, func(in ssa.Instruction) {
-				al, ok := in.(*ssa.Alloc)
-				if !ok {
-					return
+			// a configuration the constructor builds itself and hands to another function of the package
+			for _, cl := range rawCallsIn(fn) {
+				call, isCall := cl.(*ssa.Call)
+				if !isCall {
+					continue
 				}
-				T := NamedOf(al.Type())
-				if T == nil || setDef[T] == nil {
-					return
+				cal := CalleeFn(call.Common())
+				if cal == nil || cal.Pkg != fn.Pkg {
+					continue
 				}
-				for _, prm := range fn.Params {
-					if NamedOf(prm.Type()) == T {
-						return // the spill of the parameter, judged above
+				for ai, a := range call.Common().Args {
+					T := NamedOf(a.Type())
+					if T == nil || setDef[T] == nil || cal == setDef[T] || ai >= len(cal.Params) {
+						continue
 					}
-				}
-				n++
-				ok = applies(fn, func(v ssa.Value) bool {
-					if u, isU := v.(*ssa.UnOp); isU && u.Op == token.MUL && u.X == ssa.Value(al) {
-						return true
+					if _, isPtr := a.Type().Underlying().(*types.Pointer); isPtr {
+						// &config handed on: judged where the pointee is built
 					}
-					return v == ssa.Value(al)
-				}, T, 0)
-				c.Report(ok, id, "DEFAULTS-APPLIED", fn, al.Pos(), "configuration built in "+fn.Name(), "a configuration the constructor builds itself gets its defaults before it is used")
-			})
+					fromParam := false
+					for _, prm := range fn.Params {
+						if NamedOf(prm.Type()) == T && (refersToParam(a, prm) || AllOrigins(a, func(o ssa.Value) bool { return refersToParam(o, prm) })) {
+							fromParam = true
+						}
+					}
+					if fromParam {
+						continue // judged above
+					}
+					n++
+					ok := false
+					// defaults applied here, on the variable the argument is read from, before the call
+					var cell ssa.Value
+					switch x := a.(type) {
+					case *ssa.UnOp:
+						if x.Op == token.MUL {
+							cell = x.X
+						}
+					case *ssa.Alloc:
+						cell = x
+					}
+					if cell != nil {
+						for _, sd := range rawCallsIn(fn) {
+							if CalleeFn(sd.Common()) == setDef[T] && len(sd.Common().Args) > 0 && sd.Common().Args[0] == cell && !rawReachEntry(fn, []ssa.Instruction{sd})[call] {
+								ok = true
+							}
+						}
+					}
+					// or by the function it is handed to
+					if !ok {
+						prm := cal.Params[ai]
+						ok = applies(cal, func(v ssa.Value) bool { return refersToParam(v, prm) }, T, 1)
+					}
+					c.Report(ok, id, "DEFAULTS-APPLIED", fn, call.Pos(), "configuration built in "+fn.Name()+" and handed to "+cal.Name(), "a configuration the constructor builds itself gets its defaults (here, or in the function it is handed to) before it is used")
+				}
+			}
 		}
 	}
 	c.Report(true, id, "DEFAULTS-SCANNED", nil, token.NoPos, strings.Join(rels, ","), fmt.Sprintf("%d configuration values in exported constructors examined", n))
